@@ -135,6 +135,23 @@ def _run_colfile(desc):
                         rd2 = C.columnfile(p2)
                     if list(rd2.titles) != titles or any(not same(rd2.getcolumn(t), rd.getcolumn(t)) for t in titles):
                         sh.violation("text:second-cycle-not-a-fixed-point", case, {})
+                if ok:
+                    # one object walks over several files: after readfile(other) it is what a fresh columnfile(other) is - titles, values
+                    # and header parameters (those of the file read before are gone)
+                    p3 = os.path.join(wd, "c.flt")
+                    with open(p3, "w") as fh_:
+                        fh_.write("# o11 = 1\n# other = 5\n#  %s  extra\n" % titles[-1])
+                        for q_ in range(3):
+                            fh_.write("%d %d\n" % (q_ + 1, 7 - q_))
+                    with contextlib.redirect_stdout(io.StringIO()):
+                        fresh = C.columnfile(p3)
+                        rd.readfile(p3)
+                    pf, pr = dict(fresh.parameters.parameters), dict(rd.parameters.parameters)
+                    if list(rd.titles) != list(fresh.titles) or rd.nrows != fresh.nrows or any(not same(rd.getcolumn(t), fresh.getcolumn(t)) for t in fresh.titles):
+                        sh.violation("text:readfile-on-a-used-object-differs-from-a-fresh-read:columns", case, {"titles": list(rd.titles)})
+                    elif pf != pr:
+                        sh.violation("text:readfile-on-a-used-object-differs-from-a-fresh-read:header-parameters", case,
+                                     {"only_in_the_reused_object": sorted(set(pr) - set(pf)), "differing": sorted(k_ for k_ in pf if k_ in pr and pf[k_] != pr[k_])})
                 # ---------- hdf
                 h = os.path.join(wd, "a.h5")
                 if os.path.exists(h):
